@@ -323,7 +323,12 @@ func makeSpecialScenario(r *rand.Rand) (*scenario, bool, bool) {
 			t = gen.Resolution{Type: "SpItem", Field: "detail"}
 			ids = map[int64]bool{99: true}
 		}
-		sc.plan.fails = append(sc.plan.fails, newFailure(r, k, t.Type, t.Field, ids))
+		f := newFailure(r, k, t.Type, t.Field, ids)
+		if mutation && r.Intn(4) == 0 {
+			// the resolver returns the error of a child context it cancelled itself
+			f.kind, f.err = fBareCanceled, context.Canceled
+		}
+		sc.plan.fails = append(sc.plan.fails, f)
 	}
 	// a failing function stops what depends on it: only failures with an instance
 	// none of whose (transitive) blockers fails count as on the path
